@@ -3,7 +3,7 @@ import QtVerif.Model.Peripherals
 Lemmas about the peripherals registry model (C20): the loop of `put_peripherals` over a GET document re-creates every
 non-static peripheral under its own id (`addAll_get`, `put_get_source`, `get_put_get`); static peripherals survive every
 PUT (`put_statics_survive`); what a refused document leaves behind (`addAll_raised`, `put_raised`); ports after an accepted
-one (`put_ok_ports`).
+one (`put_ok_ports`); the registry invariant `Inv` kept by POST, DELETE and PUT (`inv_post`, `inv_delete`, `inv_put`).
 -/
 namespace QtVerif.Peripherals
 
@@ -326,5 +326,155 @@ theorem put_ok_ports (cfg : Cfg) (reg reg' : List Periph) (doc : List Entry)
     · next added r hne hres =>
       simp only [Prod.mk.injEq] at h
       exact absurd h.2 hne
+
+/-! ### the registry invariant: the hypotheses of the round trip hold of every registry reachable through the API -/
+
+/-- no static peripheral after a non-static one -/
+def StaticsFirstP (reg : List Periph) : Prop := reg.Pairwise (fun a b => a.static = false → b.static = false)
+
+theorem staticsFirst_of_pairwise : ∀ reg : List Periph, StaticsFirstP reg → StaticsFirst reg := by
+  intro reg
+  induction reg with
+  | nil => intro _; simp [StaticsFirst]
+  | cons p l ih =>
+    intro h
+    have hl := ih (List.Pairwise.of_cons h)
+    have hp : ∀ q ∈ l, p.static = false → q.static = false := (List.pairwise_cons.mp h).1
+    unfold StaticsFirst at *
+    cases hs : p.static with
+    | true => simp [hs]; exact hl
+    | false =>
+      have hall : ∀ q ∈ l, q.static = false := fun q hq => hp q hq hs
+      have h1 : l.filter (·.static) = [] := by
+        simp only [List.filter_eq_nil_iff]; intro q hq; simp [hall q hq]
+      have h2 : l.filter (fun p => !p.static) = l := by
+        simp only [List.filter_eq_self]; intro q hq; simp [hall q hq]
+      simp [hs, h1, h2]
+
+/-- the invariant of the registry -/
+def Inv (reg : List Periph) : Prop := (ids reg).Nodup ∧ (∀ p ∈ reg, WFP p) ∧ StaticsFirstP reg
+
+theorem inv_append_nonstatic {reg : List Periph} {p : Periph} (h : Inv reg) (hw : WFP p) (hs : p.static = false)
+    (hf : p.effId ∉ ids reg) : Inv (reg ++ [p]) := by
+  obtain ⟨h1, h2, h3⟩ := h
+  refine ⟨?_, ?_, ?_⟩
+  · simp only [ids, List.map_append, List.map_cons, List.map_nil]
+    rw [List.nodup_append]
+    refine ⟨h1, by simp, ?_⟩
+    intro a ha b hb
+    simp only [List.mem_singleton] at hb
+    subst hb
+    intro hab; subst hab; exact hf ha
+  · intro q hq
+    rcases List.mem_append.mp hq with hq | hq
+    · exact h2 q hq
+    · simp only [List.mem_singleton] at hq; subst hq; exact hw
+  · unfold StaticsFirstP
+    rw [List.pairwise_append]
+    refine ⟨h3, by simp, ?_⟩
+    intro a _ b hb _
+    simp only [List.mem_singleton] at hb; subst hb; exact hs
+
+theorem inv_map_ports {reg : List Periph} (f : Periph → Periph)
+    (hf : ∀ p, (f p).effId = p.effId ∧ (f p).name = p.name ∧ (f p).static = p.static) (h : Inv reg) : Inv (reg.map f) := by
+  obtain ⟨h1, h2, h3⟩ := h
+  refine ⟨?_, ?_, ?_⟩
+  · have : ids (reg.map f) = ids reg := by simp [ids, List.map_map, Function.comp_def, (hf _).1]
+    rw [this]; exact h1
+  · intro q hq
+    obtain ⟨p, hp, rfl⟩ := List.mem_map.mp hq
+    have := h2 p hp
+    unfold WFP at *
+    rw [(hf p).1, (hf p).2.1]; exact this
+  · unfold StaticsFirstP
+    rw [List.pairwise_map]
+    exact h3.imp (fun {a b} hab => by rw [(hf a).2.2, (hf b).2.2]; exact hab)
+
+theorem inv_filter {reg : List Periph} (q : Periph → Bool) (h : Inv reg) : Inv (reg.filter q) := by
+  obtain ⟨h1, h2, h3⟩ := h
+  refine ⟨?_, fun p hp => h2 p (List.mem_filter.mp hp).1, h3.sublist List.filter_sublist⟩
+  exact h1.sublist (List.Sublist.map _ List.filter_sublist)
+
+theorem inv_post (cfg : Cfg) (hauto : ∀ e, cfg.auto e ≠ "") (reg : List Periph) (e : Entry) (h : Inv reg) :
+    Inv (postPeripheral cfg reg e).1 := by
+  have hgo : Inv (postPeripheral.go cfg reg e).1 := by
+    unfold postPeripheral.go
+    split
+    · exact h
+    · exact h
+    · exact h
+    · next p reg' hadd =>
+      obtain ⟨hp, hreg, hfresh, _, _⟩ := add_ok hadd
+      subst hreg
+      apply inv_map_ports
+      · intro q; split <;> simp
+      · exact inv_append_nonstatic h (hp ▸ construct_wf cfg hauto _ _) (by rw [hp]; rfl) hfresh
+  unfold postPeripheral
+  split
+  · exact h
+  · split
+    · split
+      · exact h
+      · exact hgo
+    · exact hgo
+
+theorem inv_delete (reg : List Periph) (id : String) (h : Inv reg) : Inv (deletePeripheral reg id).1 := by
+  unfold deletePeripheral
+  split
+  · exact h
+  · split
+    · exact h
+    · exact inv_filter _ h
+
+theorem inv_addAll (cfg : Cfg) (hauto : ∀ e, cfg.auto e ≠ "") (st : List Periph) :
+    ∀ (doc : List Entry) (i : Nat) (added : List Periph), Inv (st ++ added) → Inv (st ++ (addAll cfg st i added doc).1) := by
+  intro doc
+  induction doc with
+  | nil => intro i added h; simpa [addAll] using h
+  | cons e es ih =>
+    intro i added h
+    unfold addAll
+    split
+    · exact ih (i + 1) added h
+    · split
+      · exact h
+      · next p reg' hadd =>
+        obtain ⟨hp, _, hfresh, _, _⟩ := add_ok hadd
+        apply ih (i + 1) (added ++ [p])
+        rw [← List.append_assoc]
+        exact inv_append_nonstatic h (hp ▸ construct_wf cfg hauto _ _) (by rw [hp]; rfl) hfresh
+
+theorem inv_put (cfg : Cfg) (hauto : ∀ e, cfg.auto e ≠ "") (reg : List Periph) (doc : List Entry) (h : Inv reg) :
+    Inv (putPeripherals cfg reg doc).1 := by
+  unfold putPeripherals
+  split
+  · exact h
+  · have hst : Inv (reg.filter (·.static) ++ []) := by simpa using inv_filter _ h
+    have hloop := inv_addAll cfg hauto (reg.filter (·.static)) doc 0 [] hst
+    simp only
+    split
+    · next added hres =>
+      rw [hres] at hloop
+      have : reg.filter (·.static) ++ added.map (fun p => { p with ports := true })
+          = (reg.filter (·.static) ++ added).map (fun p => if p.static then p else { p with ports := true }) := by
+        have hfresh := addAll_fresh cfg (reg.filter (·.static)) doc 0 [] (by simp)
+        rw [hres] at hfresh
+        rw [List.map_append]
+        congr 1
+        · symm
+          conv => rhs; rw [← List.map_id (reg.filter (·.static))]
+          apply List.map_congr_left
+          intro p hp
+          simp [List.mem_filter] at hp
+          simp [hp.2]
+        · apply List.map_congr_left
+          intro p hp
+          simp [(hfresh p hp).1]
+      rw [this]
+      apply inv_map_ports _ _ hloop
+      intro p; split <;> simp
+    · next added r _ hres =>
+      rw [hres] at hloop
+      exact hloop
 
 end QtVerif.Peripherals
